@@ -124,25 +124,35 @@ def apply_ops(topo, x, ops, strict=False):
     return topo, applied
 
 
-def geometry(x, g, ndims):
-    """smooth invertible map of the unit box: identity, affine or a small quadratic perturbation (|det| stays well away from 0)"""
+def geometry(x, g, ndims, with_jac=False):
+    """smooth invertible map of the unit box: identity, affine or a small quadratic perturbation (|det| stays well away from 0).
+    returns (nutils geometry, numpy map X->Y[, numpy jacobian X->dY/dX])"""
     from nutils import function
     a = g['a']
-    if g['kind'] == 'identity':
-        return x, lambda X: X
     d = ndims
+    if g['kind'] == 'identity':
+        out = (x, lambda X: X, lambda X: numpy.broadcast_to(numpy.eye(d), (len(X), d, d)))
+        return out if with_jac else out[:2]
     M = numpy.eye(d) + numpy.array(a[:d * d]).reshape(d, d) * .5
     if abs(numpy.linalg.det(M)) < .3:
         M = numpy.eye(d)
+    b = numpy.array(a[9:9 + d])
     if g['kind'] == 'affine':
-        return function.Array.cast(M) @ x + numpy.array(a[9:9 + d]), lambda X: X @ M.T + numpy.array(a[9:9 + d])
+        out = (function.Array.cast(M) @ x + b, lambda X: X @ M.T + b, lambda X: numpy.broadcast_to(M, (len(X), d, d)))
+        return out if with_jac else out[:2]
     q = numpy.array(a[:d]) * .2
     y = function.Array.cast(M) @ x
     quad = numpy.stack([y[i] + q[i] * x[(i + 1) % d] * x[(i + 1) % d] for i in range(d)])
     def f(X):
         Y = X @ M.T
         return numpy.stack([Y[:, i] + q[i] * X[:, (i + 1) % d] ** 2 for i in range(d)], axis=1)
-    return quad, f
+    def jac(X):
+        D = numpy.broadcast_to(M, (len(X), d, d)).copy()
+        for i in range(d):
+            D[:, i, (i + 1) % d] += 2 * q[i] * X[:, (i + 1) % d]
+        return D
+    out = (quad, f, jac)
+    return out if with_jac else out[:2]
 
 
 def build(r):
